@@ -11,6 +11,7 @@ package p18
 // replays against the same world.
 
 import (
+	"encoding/base64"
 	"fmt"
 	"math/big"
 	"os"
@@ -19,11 +20,14 @@ import (
 	"testing"
 	"time"
 
+	ecrypto "github.com/ethereum/go-ethereum/crypto"
+
 	"github.com/zenon-network/go-zenon/chain/nom"
 	"github.com/zenon-network/go-zenon/common/types"
 	"github.com/zenon-network/go-zenon/rpc/api"
 	"github.com/zenon-network/go-zenon/vm/constants"
 	"github.com/zenon-network/go-zenon/vm/embedded/definition"
+	"github.com/zenon-network/go-zenon/vm/embedded/implementation"
 
 	"verifharness/pbt"
 	"verifharness/sim"
@@ -70,8 +74,166 @@ func (d *detSrc) Repeat(actions map[string]func(), inv func()) { panic("detSrc: 
 // ---- world opts shared by every world of the process (process globals!) -----------------
 
 func worldOpts() sim.WorldOpts {
+	bridgeGlobals.Do(func() {
+		// values only (as the repository's own bridge tests do): a bridge administrator we hold
+		// the key of and short time-challenge delays, so that worlds can contain bridge entries
+		constants.InitialBridgeAdministrator = bridgeAdmin()
+		constants.MinAdministratorDelay = 6
+		constants.MinSoftDelay = 3
+		constants.MinUnhaltDurationInMomentums = 5
+		constants.MinGuardians = 4
+	})
 	return sim.WorldOpts{FastLocks: true, EpochDuration: 10 * time.Minute}
 }
+
+var bridgeGlobals sync.Once
+
+func bridgeAdmin() types.Address { return sim.UserKey(2).Address }
+
+const tssPubKey = "AsAQx1M3LVXCuozDOqO5b9adj/PItYgwZFG/xTDBiZzT" // key pair of the repository's bridge tests
+
+// bridgeScript configures the bridge (orchestrator, two networks, guardians, tss key, two token
+// pairs; every time-challenged call twice with the delay in between) and files wrap requests.
+// It returns the first refusal (the world is still usable, only without bridge entries).
+func bridgeScript(h *sim.Hist, wraps int) error {
+	admin := bridgeAdmin()
+	call := func(from types.Address, z types.ZenonTokenStandard, amt int64, descr string, method string, args ...interface{}) error {
+		data := definition.ABIBridge.PackMethodPanic(method, args...)
+		_, err := h.Submit(&nom.AccountBlock{Address: from, ToAddress: types.BridgeContract, TokenStandard: z, Amount: big.NewInt(amt), Data: data}, "bridge "+descr)
+		if err != nil {
+			return fmt.Errorf("bridge %s: %v", descr, err)
+		}
+		return nil
+	}
+	produce := func(n int) error {
+		for i := 0; i < n; i++ {
+			if !h.Produce(0) {
+				return fmt.Errorf("bridge script: producer stopped")
+			}
+		}
+		return nil
+	}
+	guardians := []types.Address{sim.UserKey(0).Address, sim.UserKey(1).Address, sim.UserKey(2).Address, sim.UserKey(3).Address, sim.UserKey(4).Address}
+	challenged := func() error {
+		if err := call(admin, types.ZnnTokenStandard, 0, "nominateGuardians", definition.NominateGuardiansMethodName, guardians); err != nil {
+			return err
+		}
+		if err := call(admin, types.ZnnTokenStandard, 0, "setTokenPair znn", definition.SetTokenPairMethod, uint32(2), uint32(123), types.ZnnTokenStandard,
+			"0x5fbdb2315678afecb367f032d93f642f64180aa3", true, true, false, big.NewInt(100), uint32(15), uint32(20), `{"APR": 15}`); err != nil {
+			return err
+		}
+		return produce(2)
+	}
+	if err := call(admin, types.ZnnTokenStandard, 0, "setOrchestratorInfo", definition.SetOrchestratorInfoMethodName, uint64(6), uint32(3), uint32(15), uint32(10)); err != nil {
+		return err
+	}
+	if err := produce(2); err != nil {
+		return err
+	}
+	if err := call(admin, types.ZnnTokenStandard, 0, "setNetwork eth", definition.SetNetworkMethodName, uint32(2), uint32(123), "Ethereum", "0x323b5d4c32345ced77393b3530b1eed0f346429d", "{}"); err != nil {
+		return err
+	}
+	if err := call(admin, types.ZnnTokenStandard, 0, "setNetwork bsc", definition.SetNetworkMethodName, uint32(2), uint32(124), "BSC", "0x423b5d4c32345ced77393b3530b1eed0f346429d", "{}"); err != nil {
+		return err
+	}
+	if err := produce(2); err != nil {
+		return err
+	}
+	if err := challenged(); err != nil {
+		return err
+	}
+	if err := produce(int(constants.MinAdministratorDelay) + 2); err != nil {
+		return err
+	}
+	if err := challenged(); err != nil {
+		return err
+	}
+	// the tss key needs the guardians; second token pair (one time challenge per method name at a time)
+	pair2 := func() error {
+		if err := call(admin, types.ZnnTokenStandard, 0, "changeTss", definition.ChangeTssECDSAPubKeyMethodName, tssPubKey, "", ""); err != nil {
+			return err
+		}
+		if err := call(admin, types.ZnnTokenStandard, 0, "setTokenPair qsr", definition.SetTokenPairMethod, uint32(2), uint32(124), types.QsrTokenStandard,
+			"0x6fbdb2315678afecb367f032d93f642f64180aa3", true, true, false, big.NewInt(100), uint32(10), uint32(20), `{}`); err != nil {
+			return err
+		}
+		return produce(2)
+	}
+	if err := pair2(); err != nil {
+		return err
+	}
+	if err := produce(int(constants.MinSoftDelay) + 2); err != nil {
+		return err
+	}
+	if err := pair2(); err != nil {
+		return err
+	}
+	for i := 0; i < wraps; i++ {
+		from := guardians[i%len(guardians)]
+		z, chain := types.ZnnTokenStandard, uint32(123)
+		if i%3 == 2 {
+			z, chain = types.QsrTokenStandard, uint32(124)
+		}
+		if err := call(from, z, int64(1000+i), fmt.Sprintf("wrap %d", i), definition.WrapTokenMethodName, uint32(2), chain, bridgeDestinations[i%len(bridgeDestinations)]); err != nil {
+			return err
+		}
+		if i%4 == 3 {
+			if err := produce(1); err != nil {
+				return err
+			}
+		}
+	}
+	if err := produce(1); err != nil {
+		return err
+	}
+	// unwrap requests signed with the test tss key
+	for i := 0; i < wraps/2; i++ {
+		chain, tokenAddr := uint32(123), "0x5fbdb2315678afecb367f032d93f642f64180aa3"
+		if i%3 == 2 {
+			chain, tokenAddr = uint32(124), "0x6fbdb2315678afecb367f032d93f642f64180aa3"
+		}
+		param := &definition.UnwrapTokenParam{NetworkClass: 2, ChainId: chain, TransactionHash: types.NewHash([]byte(fmt.Sprintf("c18-unwrap-%d", i/2))), LogIndex: uint32(i),
+			ToAddress: guardians[i%3], TokenAddress: tokenAddr, Amount: big.NewInt(int64(500 + i))}
+		msg, err := implementation.GetUnwrapTokenRequestMessage(param)
+		if err != nil {
+			return err
+		}
+		sig, err := tssSign(msg)
+		if err != nil {
+			return err
+		}
+		if err := call(guardians[(i+1)%len(guardians)], types.ZnnTokenStandard, 0, fmt.Sprintf("unwrap %d", i), definition.UnwrapTokenMethodName, param.NetworkClass, param.ChainId,
+			param.TransactionHash, param.LogIndex, param.ToAddress, param.TokenAddress, param.Amount, sig); err != nil {
+			return err
+		}
+		if i%4 == 3 {
+			if err := produce(1); err != nil {
+				return err
+			}
+		}
+	}
+	return produce(2)
+}
+
+func tssSign(hash []byte) (string, error) {
+	raw, err := base64.StdEncoding.DecodeString("tuSwrTEUyJI1/3y5J8L8DSjzT/AQG2IK3JG+93qhhhI=")
+	if err != nil {
+		return "", err
+	}
+	key, err := ecrypto.ToECDSA(raw)
+	if err != nil {
+		return "", err
+	}
+	sig, err := ecrypto.Sign(hash, key)
+	if err != nil {
+		return "", err
+	}
+	return base64.StdEncoding.EncodeToString(sig), nil
+}
+
+// BridgeScriptErr remembers a refused bridge script step (reported as a class).
+var BridgeScriptErr error
+
 
 // genSpec draws a consistent genesis (copy of props/c01_test.go genSpec).
 func genSpec(c *pbt.C) *sim.Spec {
@@ -230,18 +392,33 @@ func NewView(name string, n *sim.Node, users []types.Address, pillars []string, 
 	return v, nil
 }
 
-// Unreceived is the truth list of GetUnreceivedBlocksByAddress: confirmed sends to a without
-// any receiving block (confirmed or pooled).
-func (v *View) Unreceived(a types.Address) map[types.Hash]bool {
-	out := map[types.Hash]bool{}
+// Unreceived is the truth of GetUnreceivedBlocksByAddress: must = confirmed sends to a without
+// any receiving block; optional = confirmed sends to a whose receiving block is still pooled
+// (the node hides them for user accounts and shows them for embedded contracts; the property
+// speaks about the chain at the frontier, so either answer is accepted).
+func (v *View) Unreceived(a types.Address) (must, optional map[types.Hash]bool) {
+	must, optional = map[types.Hash]bool{}, map[types.Hash]bool{}
 	for h, s := range v.L.Sends {
-		if s.ToAddress == a && !v.L.Pooled[h] && len(v.L.Recv[h]) == 0 {
-			if _, confirmed := v.ConfAt[h]; confirmed {
-				out[h] = true
+		if s.ToAddress != a || v.L.Pooled[h] {
+			continue
+		}
+		if _, confirmed := v.ConfAt[h]; !confirmed {
+			continue
+		}
+		confirmedRecv := false
+		for _, r := range v.L.Recv[h] {
+			if _, ok := v.ConfAt[r.Hash]; ok {
+				confirmedRecv = true
 			}
 		}
+		switch {
+		case len(v.L.Recv[h]) == 0:
+			must[h] = true
+		case !confirmedRecv:
+			optional[h] = true
+		}
 	}
-	return out
+	return must, optional
 }
 
 // PooledOf lists the unconfirmed blocks of a in height order.
@@ -298,7 +475,7 @@ func BigView(t *testing.T, variant int) *View {
 		if bigViews[variant] != nil {
 			fmt.Fprintf(os.Stderr, "C18: big world %d built in %.1fs: %d momentums, %d accounts, busy chain %d blocks, sink pending %d\n", variant,
 				time.Since(start).Seconds(), bigViews[variant].Frontier, len(bigViews[variant].L.Accounts),
-				len(bigViews[variant].L.Blocks[bigViews[variant].Busy]), len(bigViews[variant].Unreceived(bigViews[variant].Sink)))
+				len(bigViews[variant].L.Blocks[bigViews[variant].Busy]), unreceivedCount(bigViews[variant]))
 		}
 	})
 	if bigViews[variant] == nil {
@@ -356,7 +533,11 @@ func buildBig(c *pbt.C, variant int) (*View, error) {
 	busy := sim.UserKey(0).Address
 	spec.Fusions = append(spec.Fusions, sim.FusionSpec{Owner: fuser, Beneficiary: busy, Amount: 5000, Id: types.NewHash([]byte("c18-busy-fusion"))})
 	h := newHistNoCleanup(c, spec, worldOpts())
-	h.Intents = sim.DefaultIntents()
+	for _, in := range sim.DefaultIntents() {
+		if in.Name != "pillar-revoke" && in.Name != "sentinel-revoke" {
+			h.Intents = append(h.Intents, in)
+		}
+	}
 	var sink types.Address
 	copy(sink[:], types.NewHash([]byte(fmt.Sprintf("c18-sink-%d", variant))).Bytes()[:20])
 	sink[0] = 0
@@ -369,6 +550,32 @@ func buildBig(c *pbt.C, variant int) (*View, error) {
 		}
 		panic("no intent " + name)
 	}
+	for i := 0; i < 3; i++ {
+		h.Produce(0) // past the enforcement height of the sporks declared at genesis
+	}
+	for i := 0; i < 9; i++ {
+		u := sim.UserKey(i % 2).Address
+		_, _ = h.Submit(&nom.AccountBlock{Address: u, ToAddress: types.StakeContract, TokenStandard: types.ZnnTokenStandard, Amount: big.NewInt(int64(1+i) * sim.Zexp),
+			Data: definition.ABIStake.PackMethodPanic(definition.StakeMethodName, int64(1+i%4)*constants.StakeTimeUnitSec)}, "stake")
+	}
+	if err := bridgeScript(h, 70-40*variant); err != nil {
+		BridgeScriptErr = err
+		fmt.Fprintf(os.Stderr, "C18: %v\n", err)
+	}
+	// sentinels: deposit first, register one momentum later
+	for i := 1; i <= 3; i++ {
+		u := sim.UserKey(i).Address
+		_, _ = h.Submit(&nom.AccountBlock{Address: u, ToAddress: types.SentinelContract, TokenStandard: types.QsrTokenStandard,
+			Amount: new(big.Int).Set(constants.SentinelQsrDepositAmount), Data: definition.ABICommon.PackMethodPanic(definition.DepositQsrMethodName)}, "sentinel deposit")
+	}
+	h.Produce(0)
+	h.Produce(0)
+	for i := 1; i <= 3; i++ {
+		u := sim.UserKey(i).Address
+		_, _ = h.Submit(&nom.AccountBlock{Address: u, ToAddress: types.SentinelContract, TokenStandard: types.ZnnTokenStandard,
+			Amount: new(big.Int).Set(constants.SentinelZnnRegisterAmount), Data: definition.ABISentinel.PackMethodPanic(definition.RegisterSentinelMethodName)}, "sentinel register")
+	}
+	h.Produce(0)
 	momentums := 150 - 70*variant
 	for m := 0; m < momentums && !h.Dead; m++ {
 		// the busy account: one or two small sends per momentum, most of them to the sink
@@ -396,9 +603,6 @@ func buildBig(c *pbt.C, variant int) (*View, error) {
 			intent("stake")
 			intent("plasma-fuse")
 			intent("accelerator-project")
-		case m < 15:
-			intent("sentinel-register")
-			intent("deposit-qsr")
 		case m == 15:
 			intent("pillar-register")
 		}
@@ -478,3 +682,8 @@ var (
 	_ = definition.IssueMethodName
 	_ = api.RpcMaxPageSize
 )
+
+func unreceivedCount(v *View) int {
+	m, _ := v.Unreceived(v.Sink)
+	return len(m)
+}
